@@ -12,8 +12,19 @@ small configs:
       model.fit, set_weights(get_weights()) on a fresh model);
   (3) oracle on the real model after the real history: pairwise monotonicity on input pairs
       differing in ONE constrained feature (in and out of range, never missing vs non-missing),
-      categorical pairs, output bounds incl. missing inputs, finiteness.
-Failure key: {"model": family, "clause": monotone|categorical_pair|bounds|finite, "cls": ...}."""
+      categorical pairs, output bounds incl. missing inputs, finiteness;
+  (4) numeric tie of the COMPOSITE: the weights of the real model after the real history (every calibrator
+      unit, lattice / KFL unit, Linear kernels, output calibrator) are read as exact rationals and fed to
+      `forward g (realise g P w)` of the Lean model (`pm.forward`, g = buildSpec(config), keypoints taken
+      from the CONFIG, output-calibrator keypoints computed as linspace(0, 1, n) by the model); its outputs
+      on pair-grid points of the oracle batch are compared with the real model's outputs. The reply also
+      carries the model's verdict on `layersAccept` (every real model that builds must be accepted by the
+      model's layer checks) and on H_trap (C01), from which the class key of F-C01-a is derived.
+Failure key: {"model": family, "clause": monotone|categorical_pair|bounds|finite, "cls": ...};
+"cls" = "trap_mono_cond_with_edgeworth" exactly when the Lean model says the configuration has an
+all-vertices lattice with Edgeworth trusts, a third axis and a trapezoid trust on a monotone conditional
+axis (outside H_trap: finding F-C01-a), the failing feature is such a conditional feature, and the failing clause
+is `monotone` (numeric conditional feature) or `categorical_pair` (categorical conditional feature with pairs)."""
 import json
 import numpy as np
 from fractions import Fraction
@@ -25,14 +36,19 @@ RULE = ("configs drawn from one PRNG over 15 families (calibrated linear +/- bou
         "PWL->Lattice and PWL->Linear stacks): 2-5 features (numeric increasing / decreasing / none, spelled as "
         "strings, ints or non-lowercase strings; categorical with list / tuple / set / no ordering pairs; default_value "
         "on numeric and categorical features; clamps, convexity, always-monotonic, learned keypoints, unimodality, "
-        "trusts, dominance where the layers allow them), 2-4 keypoints, lattice sizes 2-3, bounds none / both / "
+        "Edgeworth and trapezoid trusts (alone, together inside H_trap, and the F-C01-a class: Edgeworth + trapezoid "
+        "on a monotone conditional axis + a third axis), dominance where the layers allow them), 2-4 keypoints, lattice sizes 2-3, bounds none / both / "
         "one-sided. Each config x history is one case. Non-trivial = at least one constrained feature or an "
         "output bound, and the model output is not constant over the probe batch; distinct = distinct (family, "
         "feature-class multiset, bounds class, history) signature.")
 ASSUMPTIONS = [
     "float32 models (the public default dtype); oracle tolerance 2e-5 * max(1, max|output|)",
-    "structural correspondence (layer hyper-parameters + wiring), not numeric: the numeric behaviour of every "
-    "layer is tied by C01/C02/C04-C07/C20",
+    "structural correspondence (layer hyper-parameters + wiring) plus a numeric tie of the composite forward "
+    "function on the weights the real history left behind (float32: |real - model| <= 2e-5 * 8 * max(1, max|weight|, "
+    "max|output|)); the numeric behaviour of every single layer and of every constraint is tied by C01/C02/C04-C07/C20",
+    "numeric tie skipped (counted as numeric_skip:*) when a learned-interior softmax weight is below 1e-3 (a tiny "
+    "piece makes float32 keypoint positions ill-conditioned: F-C05-a territory) or the structural walk already "
+    "disagrees",
     "histories whose weights overflow to inf/nan or exceed 1e8 in magnitude (lr 50 on unbounded models; float32 "
     "products of a few such weights overflow) are counted as history_overflow and not judged: the theorems speak "
     "about finite weights and exact arithmetic",
@@ -199,13 +215,22 @@ def gen_spec(rng, fam):
         lats[0] = lats[0] + [lats[0][0]]     # the same feature on two axes of one lattice
       spec["lattices"] = lats
   # shape extras that only all-vertices, non-RTL lattices accept
-  if allow_extras and kind in ("lattice", "stack_lattice", "ensemble") and rng.random() < 0.35:
+  if allow_extras and kind in ("lattice", "stack_lattice", "ensemble") and rng.random() < 0.5:
     inc = [f for f in feats if f["nb"] == 0 and _dir(f["mono"]) != 0]
     if len(inc) >= 1 and len(feats) >= 2:
       main = rng.choice(inc)
       cond = rng.choice([f for f in feats if f is not main])
       if cond["unimod"] == 0:
-        cond["trusts"].append([main["name"], "edgeworth", rng.choice([1, -1])])
+        # trust classes: Edgeworth alone (C01 class A), trapezoid alone (class B), both on the same pair (the
+        # common "matching" configuration, class C). Whether the pair lies inside H_trap depends on the rest of
+        # the config (conditional axis monotone? third axis?) and is decided by the Lean model (reply of pm.forward)
+        tclass = rng.choice(["edgeworth", "edgeworth", "trapezoid", "trapezoid", "both"])
+        direction = rng.choice([1, -1])
+        if tclass in ("edgeworth", "both"):
+          cond["trusts"].append([main["name"], "edgeworth", direction])
+        if tclass in ("trapezoid", "both"):
+          cond["trusts"].append([main["name"], "trapezoid", direction])
+        spec["trust_class"] = tclass
     if len(inc) >= 2 and rng.random() < 0.5:
       a, b_ = rng.sample(inc, 2)
       a["doms"].append(b_["name"])
@@ -214,6 +239,61 @@ def gen_spec(rng, fam):
     if len(inc) >= 2:
       a, b_ = rng.sample(inc, 2)
       a["doms"].append(b_["name"])
+  return spec
+
+
+def gen_trap_spec(rng, which):
+  """calibrated lattice / lattice stack with a trapezoid trust, by class:
+  `alone`            trapezoid trust only (C01 class B): must hold;
+  `free_cond`        Edgeworth + trapezoid on the same pair, conditional feature NOT monotone, a third feature
+                     (inside H_trap, class C): must hold;
+  `rank2`            Edgeworth + trapezoid, monotone conditional feature, only two features (inside H_trap);
+  `mono_cond`        Edgeworth + trapezoid, MONOTONE conditional feature and a third feature: outside H_trap,
+                     the class of finding F-C01-a."""
+  fam = rng.choice(["lattice", "lattice", "stack_lattice"])
+  ls = rng.choice([2, 3])
+
+  def num(i, mono):
+    nk = rng.randint(2, 3)
+    kps = [Fraction(rng.randint(-4, 4), 4)]
+    for _ in range(nk - 1):
+      kps.append(kps[-1] + Fraction(rng.randint(1, 8), 4))
+    return dict(name="f%d" % i, nb=0, mono=mono, ls=ls if rng.random() < 0.7 else rng.choice([2, 3]), default=None,
+                always=False, conv=0, cmin=False, cmax=False, kps=[float(k) for k in kps], learned=False, unimod=0,
+                trusts=[], doms=[])
+  inc = lambda: rng.choice(["increasing", "decreasing", 1, -1])
+  main = num(0, inc())
+  cond = num(1, inc() if which in ("rank2", "mono_cond") else (rng.choice(["none", 0]) if which == "free_cond" else
+                                                               rng.choice(["none", "increasing", "decreasing"])))
+  if which in ("mono_cond", "rank2", "alone") and rng.random() < 0.3:
+    # a categorical conditional feature with an ordering pair also sits on a monotone lattice axis
+    a, b = rng.sample(range(3), 2)
+    cond.update(nb=3, mono=[[a, b]], kps=[0.0, 1.0], default=rng.choice([None, -1]))
+  feats = [main, cond]
+  if which in ("free_cond", "mono_cond") or (which == "alone" and rng.random() < 0.6):
+    feats.append(num(2, rng.choice(["none", "increasing", "decreasing"])))
+  direction = rng.choice([1, -1])
+  if which != "alone":
+    cond["trusts"].append([main["name"], "edgeworth", direction])
+  cond["trusts"].append([main["name"], "trapezoid", direction])
+  order = list(range(len(feats)))
+  rng.shuffle(order)
+  feats = [feats[i] for i in order]
+  for i, f in enumerate(feats):      # names follow positions; trusts name the main feature
+    f["_old"] = f["name"]
+  ren = {f["_old"]: "f%d" % i for i, f in enumerate(feats)}
+  for i, f in enumerate(feats):
+    f["name"] = "f%d" % i
+    f["trusts"] = [[ren[t[0]], t[1], t[2]] for t in f["trusts"]]
+    del f["_old"]
+  lo = Fraction(rng.randint(-8, 8), 4)
+  hi = lo + Fraction(rng.randint(1, 12), 4)
+  bounded = rng.random() < 0.7
+  spec = dict(family=fam, kind="lattice" if fam == "lattice" else fam, features=feats,
+              out_min=float(lo) if bounded else None, out_max=float(hi) if bounded else None, out_cal=False,
+              out_init=[float(lo), float(hi)], use_bias=False, kfl=False, num_terms=1, simplex=rng.random() < 0.15,
+              lattices=None, num_lattices=0, rank=0, sep=True, lincomb=False, seed=rng.randint(0, 99),
+              hseed=rng.randint(0, 2 ** 30), trust_class="trap_" + which)
   return spec
 
 
@@ -252,6 +332,39 @@ def gen_invalid(rng):
     f0.update(nb=0, mono="increasing", kps=[0.0, 1.0], conv=0, learned=False, unimod=0)
     spec["features"][1]["trusts"] = [[f0["name"], "edgeworth", 1]]
   spec["invalid"] = which
+  return spec
+
+
+LAYER_INVALID = ["cyclic_pairs", "bounds_inverted", "bounds_equal", "kps_not_increasing", "one_keypoint", "lattice_size_1"]
+
+
+def gen_layer_invalid(rng, which):
+  """configs that pass `verify_config` but that a LAYER constructor may reject (`verify_hyperparameters` of the
+  layer the builders create) -- or not, when the offending value never reaches a layer (an unused feature, a model
+  without lattice, output calibration taking the bounds). The model's `layersAccept` must agree either way."""
+  fam = rng.choice(["lattice", "linear_bounded", "ens_explicit_avg", "lattice_kfl", "ens_rtl", "lattice_outcal",
+                    "linear_unbounded", "ens_explicit_lincomb"])
+  while True:
+    spec = gen_spec(rng, fam)
+    if all(not isinstance(f["mono"], dict) for f in spec["features"]):
+      break
+  f0 = rng.choice(spec["features"])
+  if which == "cyclic_pairs":
+    f0.update(nb=3, mono=rng.choice([[[0, 1], [1, 0]], [[0, 1], [1, 2], [2, 0]], [[1, 1]]]), default=None, trusts=[],
+              unimod=0)
+  elif which == "bounds_inverted":
+    spec["out_min"], spec["out_max"] = 2.0, 1.0
+  elif which == "bounds_equal":
+    spec["out_min"], spec["out_max"] = 1.0, 1.0
+  elif which == "kps_not_increasing":
+    f0.update(nb=0, mono="increasing", kps=rng.choice([[1.0, 0.0, 2.0], [0.0, 0.0, 1.0], [0.0, 1.0, 1.0]]),
+              learned=False, conv=0, default=None)
+  elif which == "one_keypoint":
+    f0.update(nb=0, mono="increasing", kps=[1.0], learned=False, conv=0, default=None)
+  elif which == "lattice_size_1":
+    for f in spec["features"]:
+      f["ls"] = 1
+  spec["layer_invalid"] = which
   return spec
 
 
@@ -358,12 +471,14 @@ def build_stack(spec):
   if to_lattice:
     lo, hi = (0.0, 1.0) if spec["out_cal"] else (spec["out_min"], spec["out_max"])
     ed = [(names.index(t[0]), i, t[2]) for i, f in enumerate(feats) for t in f["trusts"] if t[1] == "edgeworth"]
+    tz = [(names.index(t[0]), i, t[2]) for i, f in enumerate(feats) for t in f["trusts"] if t[1] == "trapezoid"]
     init = tfl.lattice_layer.LinearInitializer(
         lattice_sizes=[f["ls"] for f in feats], monotonicities=axis, unimodalities=[f["unimod"] for f in feats],
         output_min=0.0 if spec["out_cal"] else min(spec["out_init"]), output_max=1.0 if spec["out_cal"] else max(spec["out_init"]))
     z = tfl.layers.Lattice(
         lattice_sizes=[f["ls"] for f in feats], monotonicities=axis, unimodalities=[f["unimod"] for f in feats],
-        edgeworth_trusts=ed or None, monotonic_dominances=doms or None, output_min=lo, output_max=hi,
+        edgeworth_trusts=ed or None, trapezoid_trusts=tz or None, monotonic_dominances=doms or None,
+        output_min=lo, output_max=hi,
         clip_inputs=bool(spec["seed"] % 2), interpolation="simplex" if spec["simplex"] else "hypercube",
         kernel_initializer=init, name="tfl_lattice_0")(cal)
   else:
@@ -553,6 +668,114 @@ def _lattice_block(l, ins, rank):
                    opt(l.output_max), "0", "0", "0", str(int(l.interpolation == "simplex"))])
 
 
+# ------------------------------------------------------------------ numeric tie of the composite
+def _kfl_tok(l, u, dims):
+  """`K:dims:rows:scale:bias` of unit `u` of a KroneckerFactoredLattice: rows (term, dim) term-major"""
+  kern = l.kernel.numpy()
+  L, T = int(l.lattice_sizes), int(l.num_terms)
+  rows = [[kern[0, i, u * dims + d, t] for i in range(L)] for t in range(T) for d in range(dims)]
+  return "K:%d:%s:%s:%s" % (dims, frl2(rows), frl(l.scale.numpy()[u]), fr(l.bias.numpy().ravel()[u]))
+
+
+def extract_weights(model, spec):
+  """the weights of the real model in the wire format of `pm.forward`; also the largest weight magnitude and
+  the smallest learned-interior softmax weight"""
+  names = [f["name"] for f in spec["features"]]
+  cal, blks = [], []
+  lin = comb = "_:0"
+  out = "_"
+  mag, min_ws = [1.0], [1.0]
+
+  def see(a):
+    a = np.asarray(a, dtype=np.float64)
+    if a.size:
+      mag[0] = max(mag[0], float(np.max(np.abs(a))))
+    return a
+
+  for l in model.layers:
+    tn = type(l).__name__
+    if tn in ("PWLCalibration", "CategoricalCalibration") and l.name.startswith("tfl_calib_"):
+      fi = names.index(l.name[len("tfl_calib_"):])
+      K = see(l.kernel.numpy())
+      for u in range(K.shape[1]):
+        if tn == "PWLCalibration":
+          see(np.cumsum(K[:, u]))
+          ws = "_"
+          if l.input_keypoints_type == "learned_interior":
+            lg = l.interpolation_logits.numpy()[u].astype(np.float64)
+            e = np.exp(lg - lg.max())
+            sm = e / e.sum()
+            min_ws[0] = min(min_ws[0], float(sm.min()))
+            ws = frl(sm)
+          mo = float(see(l.missing_output.numpy())[0, u]) if l.impute_missing else 0.0
+          cal.append("%d.%d:%s:%s:%s" % (fi, u, frl(K[:, u]), ws, fr(mo)))
+        else:
+          cal.append("%d.%d:%s:_:0" % (fi, u, frl(K[:, u])))
+    elif tn == "Lattice":
+      blks.append("T:" + frl(see(l.kernel.numpy())[:, 0]))
+    elif tn == "KroneckerFactoredLattice":
+      see(l.kernel.numpy()); see(l.scale.numpy()); see(l.bias.numpy())
+      blks.append(_kfl_tok(l, 0, len(_aslist(l.input))))
+    elif tn == "Linear" and l.name.startswith("tfl_linear"):
+      b = float(see(l.bias.numpy()).ravel()[0]) if l.use_bias else 0.0
+      lin = "%s:%s" % (frl(see(l.kernel.numpy())[:, 0]), fr(b))
+      blks.append("N")
+    elif tn == "Linear":
+      b = float(see(l.bias.numpy()).ravel()[0]) if l.use_bias else 0.0
+      comb = "%s:%s" % (frl(see(l.kernel.numpy())[:, 0]), fr(b))
+    elif tn == "RTL":
+      for monos, lats in l._rtl_structure:
+        inner = l._lattice_layers[str(tuple(monos))]
+        for u, lat in enumerate(lats):
+          if type(inner).__name__ == "Lattice":
+            blks.append("T:" + frl(see(inner.kernel.numpy())[:, u]))
+          else:
+            see(inner.kernel.numpy()); see(inner.scale.numpy()); see(inner.bias.numpy())
+            blks.append(_kfl_tok(inner, u, len(lat)))
+    elif tn == "PWLCalibration" and l.name == "tfl_output_calib":
+      K = see(l.kernel.numpy())
+      see(np.cumsum(K[:, 0]))
+      out = frl(K[:, 0])
+  return dict(cal="|".join(cal) or "_", blk="|".join(blks) or "_", lin=lin, comb=comb, out=out,
+              mag=mag[0], min_ws=min_ws[0])
+
+
+def forward_line(spec, wts, rows):
+  """`pm.forward` op: config tokens of `pm.build`, keypoints FROM THE CONFIG, weights, points"""
+  cfg = wire_line(spec, "pm.forward")
+  kps = ";".join(("_" if f["nb"] else frl(f["kps"])) for f in spec["features"])
+  return " ".join([cfg, kps, wts["cal"], wts["blk"], wts["lin"], wts["comb"], wts["out"], frl2(rows)])
+
+
+def htrap_class(spec):
+  """python reading of H_trap (C01) for every all-vertices lattice of the config:
+  `ok` | `shared_cond` (Edgeworth present and two trapezoid trusts share a conditional axis) |
+  `mono_cond` (Edgeworth present, a third axis, a trapezoid trust on a monotone conditional axis: F-C01-a).
+  Returns (class, set of the monotone trapezoid-conditional features of the offending lattices: the axes along
+  which the finalisation of F-C01-a loses monotonicity)."""
+  feats = spec["features"]
+  names = [f["name"] for f in feats]
+  if spec["kfl"] or spec["lattices"] == "rtl" or spec["kind"] in ("linear", "stack_linear"):
+    return "ok", set()
+  if spec["kind"] in ("lattice", "stack_lattice"):
+    lats = [list(names)]
+  else:
+    lats = spec.get("lattices_resolved") if spec["lattices"] == "random" else spec["lattices"]
+  cls, hit = "ok", set()
+  for lat in lats or []:
+    ed = [(t[0], nm) for nm in lat for t in feats[names.index(nm)]["trusts"] if t[1] == "edgeworth" and t[0] in lat]
+    tz = [(t[0], nm) for nm in lat for t in feats[names.index(nm)]["trusts"] if t[1] == "trapezoid" and t[0] in lat]
+    if not ed or not tz:
+      continue
+    monotone = lambda nm: _dir(feats[names.index(nm)]["mono"]) != 0 or bool(_pairs(feats[names.index(nm)]["mono"]))
+    if len(lat) != 2 and any(monotone(c) for _, c in tz):
+      cls = "mono_cond"
+      hit |= {names.index(c) for _, c in tz if monotone(c)}
+    elif len({c for _, c in tz}) < len(tz) and cls == "ok":
+      cls = "shared_cond"
+  return cls, hit
+
+
 # ------------------------------------------------------------------ histories
 HISTORIES = ["init", "assign1", "assign10", "assign100", "assignmix", "negative", "sgd", "adam", "fit", "restore"]
 
@@ -698,6 +921,12 @@ def failure_class(model, spec, clause, feature, hist):
     f = spec["features"][feature]
     if clause == "categorical_pair" and hist == "init":
       return "categorical_pairs_random_init"
+    if clause in ("monotone", "categorical_pair"):
+      # a categorical feature with ordering pairs sits on a monotone lattice axis: when it is the conditional
+      # feature of the trapezoid trust the lost monotonicity shows as a violated category pair
+      cls, hit = htrap_class(spec)
+      if cls == "mono_cond" and feature in hit:
+        return "trap_mono_cond_with_edgeworth"
   return "other"
 
 
@@ -752,6 +981,13 @@ def oracle(ctx, model, spec, hist, nrng, case):
   scale = max(1.0, float(np.max(np.abs(y))))
   tol = 2e-5 * scale
   ok = True
+  # points of the numeric tie: the first rows of the base batch and of every (low, high) pair batch
+  take = 3 if len(batches) <= 9 else 2
+  idx = [k * n + j for k in range(len(batches)) for j in range(take)][:36]
+  case["_tie"] = dict(
+      rows=[[int(cols[f][i]) if spec["features"][f]["nb"] else Fraction(float(np.float32(cols[f][i])))
+             for f in range(len(spec["features"]))] for i in idx],
+      ys=[float(y[i]) for i in idx], ymax=scale)
   for clause, i, a, b, valid, sign in checks:
     diff = (ys[a] - ys[b]) * sign          # must be <= tol
     diff = np.where(valid, diff, -np.inf)
@@ -792,8 +1028,15 @@ def _weights_ok(model):
              for w in model.get_weights())
 
 
-def run_case(ctx, spec, hist):
-  """builds the real model, applies the history, runs the oracle; returns (model, real_graph or error)"""
+def pending_fw(ctx):
+  if not hasattr(ctx, "_fw"):
+    ctx._fw = []
+  return ctx._fw
+
+
+def run_case(ctx, spec, hist, tie_wanted=True):
+  """builds the real model, applies the history, runs the oracle, records the numeric tie of the composite
+  (sent to the driver by the caller); returns (model, real_graph or error)"""
   import tensorflow as tf
   nrng = np.random.RandomState((spec["hseed"] + HISTORIES.index(hist) * 7919) % (2 ** 31))
   case = dict(spec=spec, history=hist)
@@ -836,6 +1079,23 @@ def run_case(ctx, spec, hist):
     ctx.fail("finite", dict(model=fam, history=hist, cls="raises"), case, classify_exc(e),
              "model raises on valid probe inputs: " + str(e)[:300])
     varies = False
+  tie = case.pop("_tie", None)
+  if tie is not None and tie_wanted:
+    try:
+      wts = extract_weights(judged, spec)
+    except InfraError:
+      raise
+    except Exception as e:     # a layer the extractor does not understand: a correspondence break, not a crash
+      wts = None
+      ctx.disagree("premade.forward", dict(spec=spec, history=hist), "weights-not-extracted %s %s" % (type(e).__name__, str(e)[:200]),
+                   "", "the weights of the real model could not be read")
+    if wts is not None:
+      if wts["min_ws"] < 1e-3:
+        ctx.count("numeric_skip:learned_tiny_piece")
+      else:
+        pending_fw(ctx).append(dict(spec=spec, history=hist, line=forward_line(spec, wts, tie["rows"]), ys=tie["ys"],
+                                    scale=8.0 * max(1.0, wts["mag"], tie["ymax"]), real_graph=real,
+                                    rows=tie["rows"]))
   constrained = any(_dir(f["mono"]) != 0 or _pairs(f["mono"]) for f in spec["features"]) or \
       spec["out_min"] is not None or spec["out_max"] is not None
   bclass = "%d%d%d" % (spec["out_min"] is not None, spec["out_max"] is not None, spec["out_cal"])
@@ -860,9 +1120,28 @@ def run(ctx):
       fams.append(FAMILIES[k % len(FAMILIES)])
   for fam in fams:
     specs.append(gen_spec(rng, fam))
+  # trapezoid trusts by class (alone / inside H_trap / the F-C01-a class)
+  n_trap = ctx.n(8, 40)
+  for k in range(n_trap):
+    specs.append(gen_trap_spec(rng, ["alone", "free_cond", "mono_cond", "rank2"][k % 4]))
   n_inv = ctx.n(10, 60)
   for _ in range(n_inv):
     specs.append(gen_invalid(rng))
+  # layer-level acceptance: real constructors vs the model's layersAccept
+  accept_cases = []
+  for k in range(ctx.n(12, 60)):
+    sp = gen_layer_invalid(rng, LAYER_INVALID[k % len(LAYER_INVALID)])
+    try:
+      build_model(sp)
+      real = "OK"
+    except InfraError:
+      raise
+    except Exception as e:
+      real = classify_exc(e)
+    ctx.count("layer_invalid:%s:%s" % (sp["layer_invalid"], "built" if real == "OK" else "rejected"))
+    accept_cases.append((sp, real))
+  import tf_keras
+  tf_keras.backend.clear_session()
   pending = []
   for spec in specs:
     ctx.count("family:" + spec["family"])
@@ -887,6 +1166,13 @@ def run(ctx):
     if rng.random() < (0.12 if quick else 0.3):
       hists.append("fit")
     first = None
+    if spec.get("trust_class", "").startswith("trap_"):
+      ctx.count("trust_class:" + spec["trust_class"])
+      # the finalisation defect shows on large infeasible kernels: always include the widest assignment
+      hists = ["init", "assign100", "assign10"] + [h for h in hists[1:] if h not in ("assign100", "assign10")][:1]
+    elif spec.get("trust_class"):
+      ctx.count("trust_class:" + spec["trust_class"])
+    ctx.count("htrap:" + htrap_class(spec)[0])
     for h in hists:
       model, real = run_case(ctx, spec, h)
       if first is None:
@@ -899,9 +1185,55 @@ def run(ctx):
     tf_keras.backend.clear_session()
   for spec, _, _ in pending:
     lines.append(wire_line(spec))
-  replies = run_driver(lines)
+  fws = pending_fw(ctx)
+  acc_lines = [accept_line(sp) for sp, _ in accept_cases]
+  replies = run_driver(lines + [fw["line"] for fw in fws] + acc_lines, timeout=1200)
   for (spec, kind, real), reply in zip(pending, replies):
     compare_graph(ctx, spec, kind, real, reply)
+  for fw, reply in zip(fws, replies[len(lines):]):
+    compare_forward(ctx, fw, reply)
+  for (sp, real), reply in zip(accept_cases, replies[len(lines) + len(fws):]):
+    if real == reply:
+      ctx.agree("premade.layersAccept.invalid")
+    else:
+      ctx.disagree("premade.layersAccept.invalid", dict(spec=sp), real, reply,
+                   "acceptance by the real layer constructors != buildSpec + layersAccept of the model")
+  ctx._fw = []
+
+
+def accept_line(spec):
+  kps = ";".join(("_" if f["nb"] else frl(f["kps"])) for f in spec["features"])
+  return wire_line(spec, "pm.accept") + " " + kps
+
+
+def compare_forward(ctx, fw, reply):
+  """numeric tie of the composite + the model's verdicts on the layer checks and on H_trap"""
+  spec = fw["spec"]
+  suite = "premade.forward" if not spec["kind"].startswith("stack") else "stack.forward"
+  case = dict(spec=spec, history=fw["history"], rows=fw["rows"])
+  toks = reply.split(" ")
+  if toks[0] != "OK" or len(toks) != 5:
+    # the real model was built, so the model must build it too (a structural disagreement is reported by
+    # compare_graph; here the numeric tie has nothing to compare)
+    ctx.count("numeric_skip:model_rejects")
+    if fw["real_graph"].startswith("OK"):
+      ctx.disagree(suite, case, fw["ys"], reply, "the Lean composite is not defined on a config the real builder accepts")
+    return
+  accept, distinct, condfree = toks[1] == "1", toks[2] == "1", toks[3] == "1"
+  if not accept:
+    ctx.disagree("premade.layersAccept", case, "built", reply[:40],
+                 "the real layer constructors accepted the config, the model's layer checks do not")
+  else:
+    ctx.agree("premade.layersAccept")
+  cls = htrap_class(spec)[0]
+  want = {"ok": distinct and condfree, "shared_cond": (not distinct) and condfree, "mono_cond": not condfree}[cls]
+  if want:
+    ctx.agree("premade.htrap")
+  else:
+    ctx.disagree("premade.htrap", case, cls, "trapDistinct=%s trapCondFree=%s" % (distinct, condfree),
+                 "H_trap class computed from the config != the model's trapDistinct / trapCondFree")
+  ctx.count("model:htrap:%d%d" % (distinct, condfree))
+  ctx.compare(suite, case, fw["ys"], parse_rats(toks[4]), fw["scale"], rtol=2e-5)
 
 
 def compare_graph(ctx, spec, kind, real, reply):
@@ -930,5 +1262,9 @@ def replay(ctx, failure):
   model, real = run_case(ctx, spec, hist)
   if model is None:
     ctx.notes.append("replay: model does not build: " + str(real))   # must then be rejected by the model too
-  reply = run_driver([wire_line(spec)])[0]
-  compare_graph(ctx, spec, "valid", real, reply)
+  fws = pending_fw(ctx)
+  replies = run_driver([wire_line(spec)] + [fw["line"] for fw in fws])
+  compare_graph(ctx, spec, "valid", real, replies[0])
+  for fw, reply in zip(fws, replies[1:]):
+    compare_forward(ctx, fw, reply)
+  ctx._fw = []
